@@ -325,8 +325,24 @@ def _merge(a, b):
     return a
 
 
+def longrun(prop, tier, seed, info):
+    """counters that only grow over a connection's life pushed past 2^31 / 2^32 / 2^16 (longrun_probe.py)"""
+    out = {'failures': [], 'known_hits': [], 'evaluations': 0, 'distinct_nontrivial': 0, 'summary': {}}
+    r = _run('longrun_probe.py', [])
+    if 'error' in r:
+        out['failures'].append(Failure({'probe': 'longrun'}, 'probe-crash', 'long-run probe crashed: ' + r['error']))
+        return out
+    out['evaluations'] = out['distinct_nontrivial'] = r['evaluations']
+    out['summary'] = {'longrun_evaluations': r['evaluations']}
+    for f in r['failures'][:1]:
+        out['failures'].append(Failure({'probe': 'longrun'}, f['sig'], f['text']))
+    return out
+
+
 def run(prop, tier, seed, info):
     base = _run_one(prop, tier, seed, info)
+    if prop in ('C06', 'C14') and not base['failures']:
+        base = _merge(base, longrun(prop, tier, seed, info))
     if prop in THREAD_KINDS and not base['failures']:
         base = _merge(base, threads(prop, tier, seed, info))
     return base
@@ -347,6 +363,9 @@ def _run_one(prop, tier, seed, info):
 def replay(prop, p):
     if isinstance(p, dict) and p.get('probe') == 'threads':
         return threads_replay(p)
+    if isinstance(p, dict) and p.get('probe') == 'longrun':
+        r = _run('longrun_probe.py', [])
+        return ('probe crashed: ' + r['error']) if 'error' in r else (r['failures'][0]['text'] if r['failures'] else None)
     if prop == 'C07':
         return memory_replay(p)
     if prop == 'C16':
